@@ -176,7 +176,7 @@ def build_pair(pool='x'):
     units = [('pair_%s_s%d' % (pool, k),
               ['-DPOOL_HEADER="pools/pool_%s.h"' % pool, '-DPOOL_NS=pool_%s' % pool, '-DNSHARD=%d' % NSHARD, '-DSHARD=%d' % k])
              for k in range(NSHARD)]
-    bins = build_binaries('pair_' + pool, [os.path.join(HARNESS, 'pair_main.cpp')], units,
+    bins = build_binaries('pair_' + pool, [os.path.join(HARNESS, 'pair_main.cpp')], units, flags=SAN_FLAGS + ['-ftemplate-depth=8192'],
                           extra_inputs=[header, os.path.join(HARNESS, 'codec_main.cpp')])
     return [bins[u[0]] for u in units]
 
